@@ -256,6 +256,11 @@ def d13_colon_in_first_relative_segment(prop, mech, case, info, variant):
         # yarl (like urllib) also takes a prefix that starts with a digit, '+', '-' or '.' for a scheme (C07 gray zone)
         if not sep or not prefix or not all(c in rfc.SCHEME_CHARS for c in prefix):
             return False
+        # D13 is about a ':' that legitimately sits in the first segment.  When the URL comes straight from constructor text
+        # that HAS a scheme by the reference decomposition, a scheme-less result is the parser's doing - a different defect
+        op = case.get("op") if isinstance(case, dict) else None
+        if isinstance(op, dict) and op.get("op") == "ctor" and isinstance(op.get("s"), str) and rfc.split(op["s"])[0]:
+            return False
         from yarl import URL
 
         s = str(u)
